@@ -226,8 +226,17 @@ def realise(unit, element, word, rules):
     return p
 
 
+class CollectingDependsOnEarlierEntries(Exception):
+    """Not raised by the library: marks that validating into a list that already holds entries gave a
+    different result than validating into an empty list (the statement: every problem is appended)."""
+
+
+SENTINEL = ("earlier entry",)
+
+
 def validate_both(unit, element, p):
-    """Returns (ff, coll): ff = None or exception; coll = (raised exception or None, errs)."""
+    """Returns (ff, craised, errs): ff = None or exception; craised = exception raised in collecting mode (or
+    the marker above); errs = the entries appended to an empty list."""
     from metapype.eml import validate, rule
     def call(errs):
         if element or unit == "@metadata":
@@ -245,6 +254,14 @@ def validate_both(unit, element, p):
         call(errs)
     except Exception as e:  # noqa: BLE001
         craised = e
+    if craised is None:
+        errs2 = [SENTINEL]
+        try:
+            call(errs2)
+            if errs2[0] is not SENTINEL or [(e[0], e[2]) for e in errs2[1:]] != [(e[0], e[2]) for e in errs]:
+                craised = CollectingDependsOnEarlierEntries(f"empty list -> {[e[0].name for e in errs]}; pre-filled list -> {[e[0].name if e is not SENTINEL else 'SENTINEL' for e in errs2]}")
+        except Exception as e:  # noqa: BLE001
+            craised = e
     return ff, craised, errs
 
 
